@@ -42,6 +42,7 @@ class Diag:
         self.fn = None        # key of the enclosing function in the generated file
         self.clause = None    # named clause (ens/req name) if identifiable
         self.callee_clause = None
+        self.clause_owner = None
         self.line = None
         self.expr = ''
         self.rendered = ''
@@ -223,6 +224,7 @@ def run_unit(unit, mode, sources, rlimit=None, extra_args=(), keep=True, tag='')
                             dg.callee_clause = '%s.%s' % (tg[1], tg[2])
                         else:
                             dg.clause = tg[2]
+                            dg.clause_owner = tg[1]
                     elif tg and tg[0] == 'spec':
                         dg.callee_clause = 'spec:%s:%d' % (tg[1], s['line_start'])
                 else:
@@ -230,6 +232,16 @@ def run_unit(unit, mode, sources, rlimit=None, extra_args=(), keep=True, tag='')
                         dg.callee_clause = 'std:%s:%d' % (s.get('file_name'), s['line_start'])
                     else:
                         dg.clause = 'value'
+        # trait-level ghost post i of a crate trait -> i-th clause of the impl method's contract
+        if dg.clause and re.match(r'post\d+$', dg.clause) and dg.fn in unit.fn_contracts:
+            c = unit.fn_contracts[dg.fn]
+            names = []
+            if c.ok is not None and mode == 'D':
+                names += [n for (n, _) in c.ok]
+            names += [n for (n, _) in c.post]
+            i = int(dg.clause[4:])
+            if i < len(names):
+                dg.clause = names[i]
         if dg.kind == 'definite' and dg.fn is None and not ours:
             # e.g. std-spec postcondition with no span in our file: try rendered text
             dg.kind = 'definite'
